@@ -631,7 +631,40 @@ func runC16(c *Ctx) {
 				continue
 			}
 			readFailed := factNil(vIs(resultOf(rd, 1)), false)
-			skipped := pathExists(pc, rd, rd, readFailed, isOneOf(w))
+			// (one fused loop: the leading lines to skip are dropped while a counter taken from the skipped-lines option is
+			// still positive — the only records that may go unwritten)
+			isSkipCounter := func(v ssa.Value) bool {
+				seenC := map[ssa.Value]bool{}
+				var okC func(x ssa.Value, d int) bool
+				okC = func(x ssa.Value, d int) bool {
+					if seenC[x] {
+						return true
+					}
+					seenC[x] = true
+					if d > 6 {
+						return false
+					}
+					switch y := x.(type) {
+					case *ssa.Phi:
+						for _, e := range y.Edges {
+							if !okC(e, d+1) {
+								return false
+							}
+						}
+						return true
+					case *ssa.BinOp:
+						if k, isK := constInt(y.Y); isK && k == 1 && y.Op == token.SUB {
+							return okC(y.X, d+1)
+						}
+						return false
+					}
+					okF, _ := allOrigins(x, oFieldLoad("rt.csvOpts", "skippedLines", nil))
+					return okF
+				}
+				return okC(v, 0)
+			}
+			stillSkipping := factLessConstGT(isSkipCounter)
+			skipped := pathExists(pc, rd, rd, anyFact(readFailed, stillSkipping), isOneOf(w))
 			c.obI("R16.4", rd, "every-record-read-is-written", !skipped, "in the copy loop the next record is read only after the one just read was written: no record is skipped", "a record that was read can be dropped without being written")
 		}
 	}
